@@ -313,7 +313,7 @@ def correspondence(ctx, lines, corpus_prefix):
     return stats, diffs, None
 
 
-def report(ctx, info, stats, diffs, err, prop, theorems, rule, what, extra_assumptions=None):
+def report(ctx, info, stats, diffs, err, prop, theorems, rule, what, extra_assumptions=None, extra_coverage=None):
     """Common tail of the three checks."""
     assumptions = [
         "FieldSet contract assumed by the model: get_inner_buffer(_mut) is a [u8; ceil(SIZE_BITS/8)] (C06 proves it of generated code; the harness field sets satisfy it)",
@@ -345,7 +345,7 @@ def report(ctx, info, stats, diffs, err, prop, theorems, rule, what, extra_assum
     elif not info["ok"]:
         vlib.violation(ctx, {"broken": info["reason"], "theorem": f"props/{prop}.v",
                              "note": "proof obligation no longer checks; correspondence found no disagreement"}, no_input=True)
-    extra = {}
+    extra = dict(extra_coverage or {})
     if ctx.tier == "thorough" and info["ok"]:
         ok, out = vlib.coqchk(prop)
         extra["coqchk"] = out.strip().splitlines()[-6:]
